@@ -88,16 +88,16 @@ fn default_runs(s: Scenario, t: Tier) -> u64 {
 fn rule_for(s: Scenario) -> String {
     let common = "one PRNG stream per run (run_seed = mix(VERIF_SEED, property, run index)) decides the swarm configuration and every operation; a case is one executed history; a state is non-trivial when the returned suggestion is non-empty, and distinct by the hash given under distinct_states_measure";
     let specific = match s {
-        Scenario::Crashfree => "histories of 30-200 calls over the 111 header key codes (any modifier, any selection byte), backspace, ctrl-backspace, commit(i<len), finish, update while idle, restart; 1-2 hosts; all 11 options, 3 layouts, 3 data profiles",
+        Scenario::Crashfree => "histories of 30-200 calls over the 111 header key codes (any modifier, any selection byte), backspace, ctrl-backspace, commit(i<len), finish, update while idle, restart; 1-2 hosts; all 11 options, 3 layouts, 4 data profiles (BIG: lists of 300+ candidates with selection bytes 253-255); recipes (unusual learned entries, families of learned words, a learned text composed again around an option switch); the editor (documents whose entries may refer to one another; stamps now / tie / back / in the future) followed by a re-load and the word; a fault-injecting configuration in about an eighth of the learning runs (directory missing / read-only, single failing saves, damaged user files)",
         Scenario::Wellformed => "as C01 but every selection byte is valid for the previously returned list; biased to long lists followed by selection-preserving punctuation with a high selection",
-        Scenario::HistoryIndependence => "a target text, a planted learned store held fixed, 2-4 executions reaching the text (straight, edit histories, warm memo, after restart) and an interleaved bystander context with another configuration and data profile; in about a third of the runs the user's auto-correct list (present from the start or not) is rewritten half-way - entry deleted, changed, added, list emptied - and every context re-loads it while idle before the target is typed",
-        Scenario::SessionReset => "history, terminating event, fork of a fresh reference context over a copy of the disk, continuation in lock step; both methods",
-        Scenario::LearnedDurability => "2-12 words typed, committed (other / preselected) or abandoned, retyped bare and with known suffixes, restarts at event boundaries; reference map of acknowledged choices",
-        Scenario::UserfileFaults => "1-2 hosts, the editor, the fault injector and the clock; faults armed right before the commit / restart / spawn / update they should bite; swarm-selected fault kinds",
-        Scenario::Reconfigure => "configuration A, pre-history, auto-correct edits stamped by the simulated clock, update to B, fork of a new context with B over a copy of the disk, continuation in lock step",
-        Scenario::FixedRules => "key / backspace histories over the Synthetic (and Probhat) layout chosen by character class, 16 helper settings, old vowel-sign order off; compared with the reference model after every operation",
-        Scenario::Reph => "histories with the reph key pressed at random points (also first); conservation on every press, placement where the text matches the syllable grammar",
-        Scenario::KarOrderEquiv => "syllable sequences typed in Unicode order into a context with the option off and in typewriter order into one with it on; compared after every syllable; pending-sign probes",
+        Scenario::HistoryIndependence => "a target text (also of one or two characters), a planted learned store held fixed (entries for prefixes and splits of the target, and what a learning commit of a wrapped text or an emoticon's emoji leaves behind), 2-4 executions reaching the text (straight, edit histories, warm memo also under other option settings brought to the compared configuration by update_engine, a warm word that begins like the target erased key by key, after restart) and an interleaved bystander context with another configuration and data profile; in about a third of the runs the user's auto-correct list is rewritten half-way or moved out of the directory and back with its old stamp and every context re-loads it while idle before the target is typed; the same history without the bystander, and (two thirds of the runs) with other keys for every hash map",
+        Scenario::SessionReset => "history (now and then 18-48 keys, or a family of words: stem learned, stem + suffix ended, stem learned again), terminating event, in a fifth of the runs an option switch by update_engine, fork of a fresh reference context over a copy of the disk, continuation in lock step (also the history's word again, also further option switches on both); both methods; fault-injecting configuration (directory unwritable from the start, single failing saves) with the pair paused while a learned choice is unsaved",
+        Scenario::LearnedDurability => "2-12 words typed, committed (other / preselected) or abandoned, retyped bare and with known suffixes, restarts at event boundaries; reference map of acknowledged choices (initialised from a store planted before the run: now and then 150-900 entries with a few for words typed again); the candidate list switched off for a word or two; in one run of twelve a second writer over the same directory, a list edit and a re-load (same-context clauses only)",
+        Scenario::UserfileFaults => "1-2 hosts, the editor (entries may refer to one another; stamps now / tie / back / in the future; clock steps from 1 ns), the fault injector and the clock; faults armed right before the commit / restart / spawn / update they should bite; long outages (3-9 failing learning commits, then the directory back); swarm-selected fault kinds",
+        Scenario::Reconfigure => "configuration A, pre-history, auto-correct edits stamped by the simulated clock (steps from 1 ns; the clock-fault configuration with tie / back / future stamps is informational), update to B (three fixed layouts, one a same-named copy in another directory), fork of a new context with B over a copy of the disk - only when the context was re-configured after the last change of the list -, continuation in lock step",
+        Scenario::FixedRules => "key / backspace histories over the Synthetic (and Probhat) layout chosen by character class (including characters of 2, 3 and 4 bytes beyond the Bengali block and the nukta), 16 helper settings switched between words of the live context in a third of the runs, old vowel-sign order off; compared with the reference model after every operation",
+        Scenario::Reph => "histories with the reph key pressed at random points (also first), options switched between words of the live context in a third of the runs; conservation on every press, placement where the text matches the syllable grammar",
+        Scenario::KarOrderEquiv => "syllable sequences (now and then 30-70 syllables) typed in Unicode order into a context with the option off and in typewriter order into one with it on; composed text, first candidate and its pre-edit text compared after every syllable and in the middle of a conjunct; pending-sign probes; words ended while a sign waits; the other helpers switched between words on both contexts",
     };
     format!("{}; {}", specific, common)
 }
